@@ -764,9 +764,21 @@ static int janet_chan_unpack(JanetChannel *chan, Janet *x, int is_cleanup) {
         case JANET_BUFFER: {
             JanetBuffer *buf = janet_unwrap_buffer(*x);
             int flags = is_cleanup ? (JANET_MARSHAL_UNSAFE | JANET_MARSHAL_DECREF) : JANET_MARSHAL_UNSAFE;
-            *x = janet_unmarshal(buf->data, buf->count, flags, NULL, NULL);
+            /* The caller holds the channel lock, so an unmarshalling error (say, an abstract type this
+             * thread does not know) must come back as a return value instead of unwinding past it.
+             * On failure *x is the error value. */
+            JanetTryState tstate;
+            JanetSignal signal = janet_try(&tstate);
+            if (signal == JANET_SIGNAL_OK) {
+                *x = janet_unmarshal(buf->data, buf->count, flags, NULL, NULL);
+            }
+            janet_restore(&tstate);
             janet_buffer_deinit(buf);
             janet_free(buf);
+            if (signal != JANET_SIGNAL_OK) {
+                *x = tstate.payload;
+                return 1;
+            }
             return 0;
         }
         case JANET_NIL:
@@ -898,13 +910,19 @@ static void janet_thread_chan_cb(JanetEVGenericMessage msg) {
     janet_chan_lock(channel);
     if (fiber->sched_id == sched_id) {
         if (mode == JANET_CP_MODE_CHOICE_READ) {
-            janet_assert(!janet_chan_unpack(channel, &x, 0), "packing error");
-            janet_schedule(fiber, make_read_result(channel, x));
+            if (janet_chan_unpack(channel, &x, 0)) {
+                janet_cancel(fiber, x);
+            } else {
+                janet_schedule(fiber, make_read_result(channel, x));
+            }
         } else if (mode == JANET_CP_MODE_CHOICE_WRITE) {
             janet_schedule(fiber, make_write_result(channel));
         } else if (mode == JANET_CP_MODE_READ) {
-            janet_assert(!janet_chan_unpack(channel, &x, 0), "packing error");
-            janet_schedule(fiber, x);
+            if (janet_chan_unpack(channel, &x, 0)) {
+                janet_cancel(fiber, x);
+            } else {
+                janet_schedule(fiber, x);
+            }
         } else if (mode == JANET_CP_MODE_WRITE) {
             janet_schedule(fiber, janet_wrap_channel(channel));
         } else { /* (mode == JANET_CP_MODE_CLOSE) */
@@ -1052,7 +1070,9 @@ static int janet_channel_pop_with_lock(JanetChannel *channel, Janet *item, int i
         }
         return 0;
     }
-    janet_assert(!janet_chan_unpack(channel, item, 0), "bad channel packing");
+    /* If the item cannot be unpacked in this thread, *item becomes the error value and we return 2
+     * once the lock is released. */
+    int unpack_failed = janet_chan_unpack(channel, item, 0);
     int is_empty;
     if (is_threaded) {
         /* don't dereference fiber from another thread */
@@ -1083,7 +1103,7 @@ static int janet_channel_pop_with_lock(JanetChannel *channel, Janet *item, int i
         }
     }
     janet_chan_unlock(channel);
-    return 1;
+    return unpack_failed ? 2 : 1;
 }
 
 static int janet_channel_pop(JanetChannel *channel, Janet *item, int is_choice) {
@@ -1112,7 +1132,9 @@ int janet_channel_give(JanetChannel *channel, Janet x) {
 }
 
 int janet_channel_take(JanetChannel *channel, Janet *out) {
-    return janet_channel_pop(channel, out, 2);
+    int status = janet_channel_pop(channel, out, 2);
+    if (status == 2) janet_panicv(*out);
+    return status;
 }
 
 JanetChannel *janet_channel_make(uint32_t limit) {
@@ -1155,7 +1177,9 @@ JANET_CORE_FN(cfun_channel_pop,
     if (janet_vm.coerce_error) {
         janet_panic("cannot take from channel inside janet_call");
     }
-    if (janet_channel_pop(channel, &item, 0)) {
+    int status = janet_channel_pop(channel, &item, 0);
+    if (status == 2) janet_panicv(item);
+    if (status) {
         janet_schedule(janet_vm.root_fiber, item);
     }
     janet_await();
@@ -1232,8 +1256,9 @@ JANET_CORE_FN(cfun_channel_choice,
             }
             if (chan->items.head != chan->items.tail) {
                 Janet item;
-                janet_channel_pop_with_lock(chan, &item, 1);
+                int status = janet_channel_pop_with_lock(chan, &item, 1);
                 chan_unlock_args(argv, i);
+                if (status == 2) janet_panicv(item);
                 return make_read_result(chan, item);
             }
         }
@@ -1256,9 +1281,14 @@ JANET_CORE_FN(cfun_channel_choice,
             /* Read */
             Janet item;
             JanetChannel *chan = janet_channel_unwrap(janet_unwrap_abstract(argv[i]));
-            if (janet_channel_pop_with_lock(chan, &item, 1)) {
+            int status = janet_channel_pop_with_lock(chan, &item, 1);
+            if (status) {
                 chan_unlock_args(argv + i + 1, argc - i - 1);
-                janet_schedule(janet_vm.root_fiber, make_read_result(chan, item));
+                if (status == 2) {
+                    janet_cancel(janet_vm.root_fiber, item);
+                } else {
+                    janet_schedule(janet_vm.root_fiber, make_read_result(chan, item));
+                }
                 break;
             }
         }
